@@ -4,10 +4,10 @@
   `blocks` correspondence. A shared lemma file: property files for C01 / C05 / C08 / C09 cite these.
   Not a property of its own (no entry in properties_cfg.py).
 -/
-import GM.Proof.BlocksLeaf
+import GM.Proof.BlocksAtx
 
 namespace GM.Props.Blocks
-open GM GM.Text GM.Blocks
+open GM GM.Text GM.Blocks GM.Spec
 
 /-- **C01, block phase — termination for every byte string.** `GM.Blocks.run src` is the block phase of
     `parser.Parse` on `src` (fresh reader, fresh context, Document node). Its three unbounded Go loops are
@@ -81,6 +81,74 @@ theorem only_containers_have_children (bp : BP) (parent : Nat) (s s' : St) (a : 
     (h : bpOpen bp parent s = .ok (a, s')) (hc : a.2.hasChildren = true) : bp.isContainer = true :=
   hasChildren_only_containers bp parent s s' a h hc
 
+/-! ### no Go panic, parser by parser, from the reader invariant `RI`
+   (`RI src r c`: the reader `r` stands for C18's cursor `c` over `src`, GM.Proof.BlocksReader; it holds for
+   `Reader.new src` — `ri_init` — and every reader call below ends in it) -/
+
+/-- the reader the block phase starts with satisfies the reader invariant -/
+theorem reader_invariant_init (src : Bytes) : RI src (initSt src).r RCur.init := ri_init src
+
+/-- **`blockquote.process` (blockquote.go:20-40): no panic and PROGRESS.** From any state whose reader
+    satisfies `RI`, it returns normally (`run_noLoop` excludes the other disjunct for whole runs); the result
+    state differs only in the reader, which satisfies `RI` again; when the answer is `true` (a block quote is
+    opened or continued) the cursor has passed at least one byte of the source — the marker `>` — and when it
+    is `false` the cursor has not moved. This is the block quote's share of the BlockParser contract the
+    model's retry monitor checks, and of C08's "a container consumes exactly its marker". -/
+theorem blockquote_process_total_progress (src : Bytes) (s : St) (c : RCur) (h : RI src s.r c) :
+    (∃ b s', blockquoteProcess s = .ok (b, s') ∧ ∃ r' c', s' = { s with r := r' } ∧ RI src r' c' ∧
+        c.p ≤ c'.p ∧ (b = true → c.p < c'.p) ∧ (b = false → c' = c))
+    ∨ blockquoteProcess s = .error .loop :=
+  blockquoteProcess_okl h
+
+/-- **paragraphParser.Open: no panic; what it builds is in range** (C01 + C05(c) for this entry point). The
+    context is untouched; either nothing is built and the cursor has not moved, or the next node of the store
+    is a parentless Paragraph with exactly one line, inside the source. -/
+theorem paragraph_open_total (src : Bytes) (s : St) (c : RCur) (h : RI src s.r c) (parent : Nat) :
+    OKL (fun a s' => ∃ r' c', s'.r = r' ∧ RI src r' c' ∧ c.p ≤ c'.p ∧ s'.pc = s.pc ∧ a.2 = stNoChildren ∧
+        ((a.1 = none ∧ s'.nodes = s.nodes ∧ c' = c) ∨
+         (a.1 = some s.nodes.length ∧ ∃ nd seg, s'.nodes = s.nodes ++ [nd] ∧ nd.kind = .paragraph ∧
+            nd.lines = [seg] ∧ SegOK src seg ∧ nd.parent = none)))
+      (paragraphOpen parent s) :=
+  paragraphOpen_okl h parent
+
+/-- **paragraphParser.Continue: no panic; the appended line is the (non-empty) rest of the current line.** -/
+theorem paragraph_continue_total (src : Bytes) (s : St) (c : RCur) (h : RI src s.r c) (node : Nat) :
+    OKL (fun st s' => ∃ r' c', s'.r = r' ∧ RI src r' c' ∧ c.p ≤ c'.p ∧ s'.pc = s.pc ∧
+        ((st = stClose ∧ s'.nodes = s.nodes ∧ c' = c) ∨
+         (st = stContinueNoChildren ∧ c.p < src.length ∧ SegOK src (RCur.seg src c) ∧
+            s'.nodes = s.nodes.set node
+              { (s.nodes.getD node default) with
+                  lines := (s.nodes.getD node default).lines ++ [RCur.seg src c], linesNil := false })))
+      (paragraphContinue node s) :=
+  paragraphContinue_okl h node
+
+/-- **paragraphParser.Close keeps the lines in range** (C05(c) under trimming): on a paragraph that has a
+    line and whose lines lie inside the source it does not panic, touches neither reader nor context, and
+    leaves the node with as many lines, all inside the source. -/
+theorem paragraph_close_total (src : Bytes) (s : St) (node : Nat) (hsrc : s.r.source = src)
+    (hl : LinesOK src (s.nodes.getD node default).lines) (hne : (s.nodes.getD node default).lines ≠ []) :
+    OKL (fun _ s' => s'.r = s.r ∧ s'.pc = s.pc ∧ ∃ ls, LinesOK src ls ∧
+        ls.length = (s.nodes.getD node default).lines.length ∧
+        s'.nodes = s.nodes.set node { (s.nodes.getD node default) with lines := ls })
+      (paragraphClose node s) :=
+  paragraphClose_okl node hsrc hl hne
+
+/-- **thematicBreakParser.Open: no panic.** -/
+theorem thematic_open_total (src : Bytes) (s : St) (c : RCur) (h : RI src s.r c) (parent : Nat) :
+    OKL (fun a s' => ∃ r' c', s'.r = r' ∧ RI src r' c' ∧ c.p ≤ c'.p ∧ s'.pc = s.pc ∧ a.2 = stNoChildren ∧
+        ((a.1 = none ∧ s'.nodes = s.nodes ∧ c' = c) ∨
+         (a.1 = some s.nodes.length ∧ s'.nodes = s.nodes ++ [{ kind := .thematicBreak }])))
+      (thematicOpen parent s) :=
+  thematicOpen_okl h parent
+
+/-- **atxHeadingParser.Open: no panic, for any `BlockOffset` in the context** — in particular the backward loop
+    `for ; line[i] == '#' && i >= start; i-- {}` (atx_heading.go:153), which reads `line[i]` before testing
+    `i >= start`, never reaches index −1 (`start ≥ 1`), and every slice it takes is inside the line. It moves
+    neither the cursor nor the context. -/
+theorem atx_open_total (src : Bytes) (s : St) (c : RCur) (h : RI src s.r c) (parent : Nat) :
+    OKL (fun a s' => ∃ r', s'.r = r' ∧ RI src r' c ∧ s'.pc = s.pc ∧ a.2 = stNoChildren) (atxOpen parent s) :=
+  atxOpen_okl h parent
+
 /-! ### statements kept visible but NOT proved (decidable / executable; checked input by input) -/
 
 /-- **C05(c), block phase** (`lines_in_range`, `lines_increasing`): every line segment of every block the
@@ -92,46 +160,22 @@ theorem only_containers_have_children (bp : BP) (parent : Nat) (s s' : St) (a : 
 def LinesInRange (src : Bytes) : Prop :=
   ∀ s, GM.Blocks.run src = .ok s → allLinesOK src s = true
 
-/-- **C01, block phase — no panic**: NOT PROVED (only `≠ .loop` is). -/
+/-- **C01, block phase — no panic** for whole runs: NOT PROVED (termination is; no-panic is proved entry point by
+    entry point above: blockquote.process, paragraph Open/Continue/Close, thematic break Open). What composing
+    them needs is listed in notes/status_blocks.md. -/
 def NoPanic (src : Bytes) : Prop := ∃ s, GM.Blocks.run src = .ok s
 
-/-- put `"> "` in front of every line -/
-def quotePrefix : Bytes → Bytes
-  | [] => []
-  | l => go l true
-where
-  go : Bytes → Bool → Bytes
-    | [], _ => []
-    | c :: cs, atStart => (if atStart then [62, 32] else []) ++ c :: go cs (c == 10)
-
-/-- shift every segment of a tree by the marker bytes put in front of its line: `shift k s` for a segment
-    on line number `k` (0-based) of the original source moves it by `2·(k+1)` -/
-def lineNo (src : Bytes) (p : Nat) : Nat := ((src.take p).filter (· == 10)).length
-
-def shiftSeg (src : Bytes) (s : Segment) : Segment :=
-  { s with start := s.start + 2 * (lineNo src s.start.toNat + 1), stop := s.stop + 2 * (lineNo src (s.stop.toNat - 1) + 1) }
-
-/-- **C08 on block trees** (`quote_prefix_simulation`), stated, NOT PROVED: for a tab- and CR-free,
-    non-blank source, the block tree of the prefixed source is a Document with one Blockquote whose children
-    are the children of the original Document's tree with every segment shifted by the markers before it
-    (node fields and blank-line flags unchanged; list item offsets unchanged because they are relative). -/
+/-- **C08 on block trees** (`quote_prefix_simulation`), stated, NOT PROVED in general: for a tab- and CR-free,
+    non-blank source, the block tree of the source with `"> "` in front of every line (`quotePrefix`) is a
+    Document with one Blockquote whose children are the children of the original Document's tree with every
+    segment moved by the markers before it (`shiftSeg`); node fields, list item offsets (relative) and the
+    `HasBlankPreviousLines` flags the block phase reads (`Tree.readBlank`: list items and children of list
+    items, the first excepted) are unchanged. The other blank flags DO differ (a new block directly inside the
+    quote after a marker-only line has the flag unset, parser.go:1099), which no renderer observes.
+    `quoteSimPair src` computes both canonical dumps (`none` = the statement does not apply); the driver
+    evaluates it (`blocks quotesim`) for every tab-free non-blank source of the `blocks` component. -/
 def QuotePrefixSimulation (src : Bytes) : Prop :=
-  (∀ c ∈ src, c ≠ 9 ∧ c ≠ 13) → ¬ isBlank src →
-  ∀ s, GM.Blocks.run src = .ok s →
-  ∃ s', GM.Blocks.run (quotePrefix src) = .ok s' ∧
-    match treeOf s'.nodes s'.nodes.length 0, treeOf s.nodes s.nodes.length 0 with
-    | .node d' [.node q kids'], .node d kids =>
-      d'.kind = .document ∧ d.kind = .document ∧ q.kind = .blockquote ∧
-      Tree.strs kids' = Tree.strs (kids.map (mapSegs (shiftSeg src)))
-    | _, _ => False
-where
-  mapSegs (f : Segment → Segment) : Tree → Tree
-    | .node n cs => .node { n with lines := n.lines.map f, info := n.info.map f,
-                                    closure := if n.closure.start < 0 then n.closure else f n.closure }
-                      (mapSegsL f cs)
-  mapSegsL (f : Segment → Segment) : List Tree → List Tree
-    | [] => []
-    | t :: ts => mapSegs f t :: mapSegsL f ts
+  ∀ e g, quoteSimPair src = some (e, g) → e = g
 
 /-! ### tests (non-vacuity: the model produces trees; examples, not theorems) -/
 
@@ -142,5 +186,8 @@ example : GM.Blocks.dump (strBytes "> - a\n\nb") =
 
 /-- test: `LinesInRange` holds on a sample -/
 example : GM.Blocks.checkLines (strBytes "1. a\n\n   b\n```\nc") = "ok" := by decide +kernel
+
+/-- test: the quote-prefix statement on a sample with a loose list, a fence and an HTML block -/
+example : GM.Blocks.quoteSim (strBytes "- a\n\n  b\n```\nc\n```\n<!-- x\n-->\ny") = "ok" := by decide +kernel
 
 end GM.Props.Blocks
